@@ -1,6 +1,8 @@
 import Driver.Core
 import RrModel.Spec.C15
-/- streams: range, rangemal, rangecl, rangeresp, kf.C15-*  (C15) -/
+/- streams: range, rangemal, rangecl, rangeresp, kf.C15-*  (C15); kf.C15-a and kf.C15-b are the
+   regression streams of the repaired findings C15-a / C15-b (suffix arithmetic; no class label any
+   more: a failure there is a violation) -/
 open Go Proto Model.Range
 
 namespace H.Range
@@ -60,7 +62,6 @@ def hRangeFn : Handler := fun impl => do
       match implHeaderView impl with
       | some v =>
         let clsL := (match spec with
-                      | .suffix k => (if k > cl.toNat then ["C15-a"] else []) ++ (if k = 0 then ["C15-b"] else [])
                       | .invalid => if rr.isSome then ["C15-g"] else []
                       | _ => [])
         (if Spec.C15.allowedHeaders 200 cl.toNat rh v then "ok" else "bad:C15:status-or-range-headers-not-allowed", joinCls clsL)
